@@ -74,7 +74,9 @@ def run(rep, tier, seed, replay=None):
                 fail = "Section 3 subset count %d, %d subsets encoded" % (p["nsub"], len(c["subsets"]))
             elif p["ed"] != c["ed"]:
                 fail = "edition %d, template edition %d" % (p["ed"], c["ed"])
-            elif p["compressed"] != bool(comp):
+            elif p["compressed"] != bool(comp) and not (comp and not p["compressed"] and not mo.startswith("ENC ok")):
+                # (a dataset the reference encoder cannot express in compressed form either - e.g. a 64-bit associated field
+                #  spanning 2^63-1 or more - has to come out uncompressed: accepted, and checked as an uncompressed message)
                 fail = "compression flag %s, expected %s" % (p["compressed"], bool(comp))
             else:
                 dh, dsubs = codec.parse_model_listing(douts[i])
@@ -92,6 +94,8 @@ def run(rep, tier, seed, replay=None):
                               % (p["s4"].hex()[:60], mb.hex()[:60], key[:200]),
                               dict(robj, correspondence="bufr_encode_message Section 4 vs Fm94.enc_plain/enc_comp"), no_input=True)
                 nviol += 1
+        elif isinstance(p, dict) and not mo.startswith("ENC ok") and comp and not p["compressed"]:
+            feat["no_compressed_form_fallback"] += 1
         elif isinstance(p, dict) and not mo.startswith("ENC ok"):
             rep.violation("C03: correspondence broken: the reference encoder refuses (%s) a dataset the library encodes  [case: %s]" % (mo[:40], key[:200]),
                           dict(robj, correspondence="Fm94.enc vs library"), no_input=True)
